@@ -178,6 +178,14 @@ class FieldData:
       if (fieldname == self.__class__.STORAGE_KEY) or \
         (self.__class__.STORAGE_KEY == "name" and \
         fieldname == self.__class__.NAME_FIELD):
+         if value is not None and not gfapy.is_placeholder(value):
+           previous = self._gfa.line(value)
+           if previous is not None and previous is not self:
+             raise gfapy.NotUniqueError(
+               "Line: {}\n".format(str(self))+
+               "cannot be renamed to {}: ".format(value)+
+               "the name is already in use\n"+
+               "Line with that name: {}".format(str(previous)))
          renaming_connected = True
          self._gfa._unregister_line(self)
     if value is None:
